@@ -91,6 +91,9 @@ def r_hash(ctx: Ctx, rt: RT):
     for algo in ("md5", "sha1", "sha256", "blake2b"):
         I.ext[f"hashlib.{algo}"] = md5
     I.libmeth[("Hasher", "hexdigest")] = lambda I, v, a, k, n: "DIGEST"
+    # builtin hash() of text is salted per process, id() is an address: neither is a content digest
+    I.ext["builtins.hash"] = lambda I, a, k, n: Opaque("process-dependent:hash()")
+    I.ext["builtins.id"] = lambda I, a, k, n: Opaque("process-dependent:id()")
     I.libmeth[("JsonDoc", "encode")] = lambda I, v, a, k, n: v
     I.libmeth[("MiniFrame", "select_dtypes")] = lambda I, f, a, k, n: MiniFrame({c: v for c, v in f.cols.items() if c != "note"}, f.tags)
     saved = I.overrides.pop(hf.qualname, None)
@@ -173,6 +176,7 @@ def run(ctx: Ctx):
     ctx.assume("hashlib digests and json.dumps(sort_keys=True) are process independent; hash_pandas_object(index=False) depends on values only")
     rc.r_to_dict(ctx, rt, "C05")
     rc.r_model_dict(ctx, rt, "C05")
+    rc.r_branch_canon(ctx, rt, "C05")
     r_attr(ctx, rt)
     r_hash(ctx, rt)
     r_eq(ctx, rt)
